@@ -69,7 +69,8 @@ CHECKS = {
              "(queries with answers, collisions) at picked instants; DaliServer and the ATX hat driver run on stub socket/"
              "serial back-ends for every outcome their protocols express. Oracle: None iff the command expects no answer, "
              "otherwise exactly the command's response class whose raw value is what the bus model produced for that "
-             "caller's own frame. 400 runs per driver quick, 6000 thorough.",
+             "caller's own frame. 400 runs per driver quick, 6000 thorough, plus a bounded-exhaustive walk over the first 5 / 8 "
+             "scheduling decisions (caller offsets, gateway delays, report coalescing) of 2 / 6 fixed scenarios per driver.",
         note="Gateway models (gateways/sim.py) define what reports a device may send; two known findings about traffic of "
              "another master during an own serial transaction are listed in known_findings.json and identified by a timing "
              "monitor (foreign report delivered between the command's write and its completion).",
@@ -95,7 +96,8 @@ CHECKS = {
              "holes, latch on/off with the live image changing after every read, and silence / framing error injected at "
              "every command of the read. Oracle: reference decoding of the stored bytes, MemoryLocationNotImplemented "
              "exactly when a location is missing, ResponseError on garbled answers, whole-bank result == values decoded "
-             "from the snapshot latched at the start, memory unchanged and bank not left latched afterwards.",
+             "from the snapshot latched at the start, memory unchanged and bank not left latched afterwards. String fields are "
+             "stored in every shape (filled without terminator, early NUL, non-ASCII before / at / after the terminator).",
         note="Trusts models/membank.py (incl. the writeEnableState rule), spec/membank_layout.py decoders. Post-state is "
              "judged after reads that return.",
         tech="runtime monitoring: specification-model post-state oracle + fault injection at every command position",
@@ -108,7 +110,10 @@ CHECKS = {
              "command stream; unit variants that stay locked, do not advance DTR0, echo a wrong byte, have a shorter bank "
              "or refuse one location. Oracle: a normal return implies memory == pre-image with exactly the requested bytes "
              "and the bank re-locked; any fault on an answered command and every unit variant must raise one of the "
-             "documented exceptions; read-only values are refused before a frame is sent; wrong lengths raise ValueError.",
+             "documented exceptions; read-only values are refused before a frame is sent; wrong lengths raise ValueError. "
+             "Histories of writes with every option combination (short writes with interior NULs, force_unlock, "
+             "ignore_feedback) on one live unit are judged byte-exactly including the lock byte, and first-use shards start "
+             "a fresh process whose first write of every value uses given options.",
         note="Trusts models/membank.py; faults on commands without an answer need not raise.",
         tech="runtime monitoring with fault enumeration: one fault per (kind, command index) + non-conforming unit models",
         ref="DESIGN.md §4 C10"),
@@ -154,7 +159,7 @@ CHECKS = {
              "the public base classes) are instantiated on all 513 bus outcomes (none, clean 0..255, framing error "
              "0..255) and compared with per-family reference semantics: raw frame passed through, yes/no, integer vs "
              "non-integer marker distinguishable from every clean reading, MASK at 255, bitmap names and named bits, "
-             "generic/enum MissingResponse/ResponseError/ValueError behaviour, str() never raising MissingResponse or "
+             "generic/enum/bitmap .value MissingResponse/ResponseError/ValueError behaviour, str() never raising MissingResponse or "
              "ResponseError; 12 kinds of non-frame constructor argument must raise TypeError. The space is enumerated "
              "completely in both tiers.",
         note="Families are recognised by the public base classes of dali.command; derived convenience properties "
@@ -231,7 +236,8 @@ CHECKS = {
              "303/304 and every legal argument, the integer the library emits is compared with an independent bit-level "
              "encoder, the table's frame must decode to the row's class with the same arguments, and sendtwice / answer "
              "kind / device type / is_query must equal the table's columns; every registered command class must be "
-             "claimed by exactly one row; event frames are compared with an independent Table-3 encoder for all schemes.",
+             "claimed by exactly one row; event frames are compared with an independent Table-3 encoder for all schemes; all "
+             "commands built for a row stay alive and their frames are re-read afterwards (no sharing between commands).",
         note="The standard is not available offline: the table is the author's transcription (four send-twice cells are "
              "pinned to the reviewed library value and marked as such).",
         tech="runtime monitoring: table-driven independent encoder as oracle, both directions, enumerated arguments",
